@@ -254,7 +254,10 @@ def run(ctx, rep):
         if f is None:
             rep.anchor("C12.routes", path)
             continue
+        f = F.inlined(f)
         names = [cs.name for cs in f.calls()]
+        for c in F.closures_of(f):      # a call made inside a closure of the route (e.g. `TLS.with(|t| ..)`) is on the route
+            names += [cs.name for cs in c.calls()]
         miss = [n for n in need if n not in names]
         if miss:
             rep.violation("C12.routes", f.name, "%s no longer goes through %s (calls %s)" % (f.name, miss, names), f.where())
